@@ -29,6 +29,12 @@ package ice
 //@   site call Unlock#1 assert address-map-is-keyed-by-the-canonical-source: destinationConn == m.addressMap[srcAddr]
 //@   site call Unlock#1 ghost byAddr := destinationConn
 //@   site call IsMessage#1 assert ufrag-lookup-only-for-unseen-sources: destinationConn == nil && arg0.base == buf.base && arg0.off == buf.off && len(arg0) == n
+//@   ghostvar decodedOK bool = false
+//@   ghostvar hasUser bool = false
+//@   site call Decode#1 ghost decodedOK := result == nil
+//@   site call Get#1 assert a-datagram-that-does-not-decode-as-stun-is-dropped-not-routed-by-username: decodedOK
+//@   site call Get#1 ghost hasUser := result1 == nil
+//@   site call Split#1 assert a-stun-message-without-username-from-an-unseen-source-is-dropped: hasUser
 //@   site call Get#1 assert username-attribute: arg1 == stun.AttrUsername
 //@   site call Split#1 assert splits-the-username-at-the-colon: arg1 == ":"
 //@   site call Split#1 ghost parts0 := result[0]
@@ -79,6 +85,8 @@ package ice
 //@   props C12
 //@   opt nosafety
 //@   modifies c.addresses, c.mu, fam:E_netip.AddrPort
+//@   loop 1 invariant the-kept-addresses-are-other-addresses: rangeindex + 1 <= len(c.addresses) && c.addresses == old(c.addresses) && forall j int :: 0 <= j && j < len(newAddresses) ==> newAddresses[j] != addr
+//@   ensures the-address-is-no-longer-listed: !listsAddr(c, addr)
 //@ func (*udpMuxedConn).addAddress
 //@   props C12
 //@   opt nosafety
@@ -97,6 +105,11 @@ package ice
 //@ func (*udpMuxedConn).WriteTo
 //@   props C12
 //@   site call registerAddress#1 assert registers-the-canonical-destination: arg0 == c
+//@   ghostvar wasClosed bool = true
+//@   site call isClosed#1 ghost wasClosed := result
+//@   site call registerAddress#1 assert C12 C13 a-closed-connection-binds-no-address: !wasClosed
+//@   site call writeTo#1 assert C12 C13 a-closed-connection-writes-nothing: !wasClosed
+//@   ensures C12 C13 a-closed-connection-fails-its-write: wasClosed ==> n == 0 && err != nil
 //@   site call canonicalAddrPort#1 assert canonicalises-the-destination: arg0 == addrPort
 //@   site call writeTo#1 assert writes-the-callers-bytes-to-the-callers-address: arg1 == buf && arg2 == rAddr
 
@@ -153,6 +166,7 @@ package ice
 //@ ghost field ice.udpMuxedConn.gD int
 //@ ghost field ice.udpMuxedConn.gLog seq
 //@ lockprotects ice.udpMuxedConn.mu bufHead, bufTail, closed, gE, gD, gLog
+//@ lockinv C12 C13 ice.udpMuxedConn.mu a-closed-connection-has-announced-it: this.closed ==> closed(this.closedChan)
 //@ lockinv C12 ice.udpMuxedConn.mu fifo-window: 0 <= this.gD && this.gD <= this.gE && ((this.gD == this.gE) == (this.bufTail == nil)) && ((this.gD == this.gE) == (this.bufHead == nil))
 //@ lockinv C12 ice.udpMuxedConn.mu fifo-ends: this.gD < this.gE ==> this.bufTail == cast(this.gLog[this.gD], *bufferHolder) && this.bufHead == cast(this.gLog[this.gE - 1], *bufferHolder) && this.bufHead.next == nil
 //@ lockinv C12 ice.udpMuxedConn.mu fifo-links: forall i int :: this.gD <= i && i < this.gE - 1 ==> cast(this.gLog[i], *bufferHolder).next == cast(this.gLog[i + 1], *bufferHolder)
@@ -204,6 +218,7 @@ package ice
 //@   opt nosafety
 //@   site store bufTail#1 ghost c.gD := c.gE
 //@   site call Unlock#1 assert closed-and-empty: c.closed && c.gD == c.gE && c.bufTail == nil && c.bufHead == nil
+//@   site call Unlock#1 assert C12 C13 the-close-is-announced-on-the-channel-the-muxs-watcher-waits-on: closed(c.closedChan)
 //@ enumerate C12 stores ice.udpMuxedConn.bufHead in (*udpMuxedConn).readPacket, (*udpMuxedConn).writePacket, (*udpMuxedConn).Close
 //@ enumerate C12 stores ice.udpMuxedConn.bufTail in (*udpMuxedConn).readPacket, (*udpMuxedConn).writePacket, (*udpMuxedConn).Close
 //@ enumerate C12 stores ice.bufferHolder.next in (*udpMuxedConn).writePacket, (*bufferHolder).reset
@@ -212,6 +227,11 @@ package ice
 //@ func (*udpMuxedConn).WriteToAddrPort
 //@   props C12
 //@   site call registerAddress#1 assert registers-the-canonical-destination: arg0 == c
+//@   ghostvar wasClosed bool = true
+//@   site call isClosed#1 ghost wasClosed := result
+//@   site call registerAddress#1 assert C12 C13 a-closed-connection-binds-no-address: !wasClosed
+//@   site call writeToUDPAddrPort#1 assert C12 C13 a-closed-connection-writes-nothing: !wasClosed
+//@   ensures C12 C13 a-closed-connection-fails-its-write: wasClosed ==> n == 0 && err != nil
 //@   site call canonicalAddrPort#1 assert canonicalises-the-destination: arg0 == rAddr
 //@   site call writeToUDPAddrPort#1 assert writes-the-callers-bytes-to-the-callers-address: arg1 == buf && arg2 == rAddr
 
